@@ -1,6 +1,7 @@
 package markdown
 
 import (
+	"bufio"
 	"bytes"
 	"context"
 	"fmt"
@@ -16,6 +17,7 @@ import (
 	east "github.com/yuin/goldmark/extension/ast"
 	"github.com/yuin/goldmark/extension"
 	"github.com/yuin/goldmark/parser"
+	gmhtml "github.com/yuin/goldmark/renderer/html"
 	"github.com/yuin/goldmark/text"
 
 	yaml "gopkg.in/yaml.v3"
@@ -305,9 +307,18 @@ func (m *Markdown) renderInlineChildren(w io.Writer, node ast.Node, src []byte) 
 func (m *Markdown) renderInlineNode(w io.Writer, node ast.Node, src []byte) error {
 	switch n := node.(type) {
 	case *ast.Text:
-		segment := string(n.Segment.Value(src))
-		if _, err := io.WriteString(w, segment); err != nil {
-			return err
+		// The segment is Markdown source, the result is bound with v-html: resolve backslash
+		// escapes and character references and escape HTML, as goldmark's own renderer does
+		if n.IsRaw() {
+			if _, err := w.Write(n.Segment.Value(src)); err != nil {
+				return err
+			}
+		} else {
+			bw := bufio.NewWriter(w)
+			gmhtml.DefaultWriter.Write(bw, n.Segment.Value(src))
+			if err := bw.Flush(); err != nil {
+				return err
+			}
 		}
 		if n.HardLineBreak() {
 			return m.renderTemplate(w, "hard_break", nil)
